@@ -1,4 +1,4 @@
-SERVED = ["C13", "C17", "C20"]
+SERVED = ["C08", "C13", "C17", "C20"]
 HOOKS = {
     "guard": "PSYCHEC_VERIF",
     "enable": "harness/Makefile compiles /repo's sources with -DPSYCHEC_VERIF into /verif/.cache/build-<flavour>/; "
@@ -57,5 +57,17 @@ CHECKS = {
                 "hand-written dispatch/selectTypeForValue models (tied by correspondence); spec C13Spec.v; LP64 only (the implementation's conversions never consult PlatformOptions). "
                 "Print Assumptions: closed under the global context.",
         "technique": "Coq proof: finite sweeps lifted to forall over enumerated kinds (vm_compute) on a model regenerated from the source + induction for all constant values; exhaustive correspondence",
+    },
+    "C08": {
+        "text": "Theorem C08_all_sequences: for EVERY non-empty sequence of the 11 type-specifier keywords, of any length, the model of the specifier state machine "
+                "binds the row's type with no invalid-type report exactly when the multiset of the sequence is a row of 6.7.2p2 (plus GNU lone _Complex), and reports an invalid "
+                "type otherwise.  Proved by a generic bisimulation lemma between the machine and a multiset-counting automaton (proved equal to the multiset definition), "
+                "the relation (44 reachable product states) computed and checked by the kernel.  Corollaries: permutation invariance, qualifiers/storage classes irrelevant, "
+                "implicit int.  The hand-written model is tied to the code by exhaustive correspondence over all 177,155 sequences of length <=5 (which exercises every "
+                "transition of the product) in variable position and shorter sweeps in parameter/field/typedef position with interleaved const/static.",
+        "design_ref": "DESIGN.md section 6, C08 and Appendix B",
+        "note": "Trusted: Coq kernel incl. vm_compute; hand transcription C08Model.v of DeclarationBinder_Specifiers.cpp (tied by exhaustive correspondence, not regenerated: "
+                "deviation from the design's T1 plan, see DESIGN.md); the row table; extraction; harness. Print Assumptions: closed under the global context.",
+        "technique": "Coq bisimulation proof (generic lemma + kernel-checked finite relation) for sequences of any length + exhaustive model/implementation correspondence",
     },
 }
